@@ -75,3 +75,48 @@ Definition check_lsq_forms (fW : form) (fL : option form) (a : sform) (observed 
   oz (outcome_eqb (lsq_outcome fW fL a) observed).
 Definition check_svd_forms (fW fb : form) (observed : outcome) : Z :=
   oz (outcome_eqb (svd_outcome fW fb) observed).
+
+(* ---- documented defaults and parameter order of the entry points (sart.pyx lines 26-27 / 161-163, nnls.py line 24,
+   lstsq.py line 23, svd.py line 24).  The harness regenerates the same record from the current source on every run
+   and the kernel checks the two equal (coq/Gen/C11/defaults_tie.v).  A call that leaves an argument out is evaluated in
+   the model with [arg_or default None]. ---- *)
+From Coq Require Import String.
+Open Scope string_scope.
+Record defaults := {
+  sart_params : list string;  csart_params : list string;  nnls_params : list string;
+  lstsq_params : list string; svd_params : list string;
+  default_max_iterations : Z; default_relaxation : Q; default_conv_tol : Q; default_beta_laplace : Q;
+  default_alpha : Q;
+  guess_default_is_none : bool; tikhonov_default_is_none : bool;
+  seed_is_exp_minus_one : bool          (* "np.zeros(n_sources) + np.exp(-1)" for a missing initial guess *)
+}.
+Definition model_defaults : defaults := {|
+  sart_params := ["geometry_matrix"; "measurement_vector"; "initial_guess"; "max_iterations"; "relaxation"; "conv_tol"];
+  csart_params := ["geometry_matrix"; "laplacian_matrix"; "measurement_vector"; "initial_guess"; "max_iterations";
+                   "relaxation"; "beta_laplace"; "conv_tol"];
+  nnls_params := ["w_matrix"; "b_vector"; "alpha"; "tikhonov_matrix"];
+  lstsq_params := ["w_matrix"; "b_vector"; "alpha"; "tikhonov_matrix"];
+  svd_params := ["w_matrix"; "b_vector"];
+  default_max_iterations := 250;
+  default_relaxation := 1;
+  default_conv_tol := Qmake 7378697629483821 73786976294838206464;        (* the double 1.0E-4 *)
+  default_beta_laplace := Qmake 5764607523034235 576460752303423488;      (* the double 0.01 *)
+  default_alpha := Qmake 5764607523034235 576460752303423488;
+  guess_default_is_none := true; tikhonov_default_is_none := true; seed_is_exp_minus_one := true |}.
+
+Definition list_string_eqb (a b : list string) : bool :=
+  (fix go (a b : list string) : bool :=
+     match a, b with [] , [] => true | x :: a', y :: b' => String.eqb x y && go a' b' | _, _ => false end) a b.
+Definition defaults_eqb (a b : defaults) : bool :=
+  list_string_eqb (sart_params a) (sart_params b) && list_string_eqb (csart_params a) (csart_params b)
+  && list_string_eqb (nnls_params a) (nnls_params b) && list_string_eqb (lstsq_params a) (lstsq_params b)
+  && list_string_eqb (svd_params a) (svd_params b)
+  && Z.eqb (default_max_iterations a) (default_max_iterations b)
+  && Qeq_bool (default_relaxation a) (default_relaxation b) && Qeq_bool (default_conv_tol a) (default_conv_tol b)
+  && Qeq_bool (default_beta_laplace a) (default_beta_laplace b) && Qeq_bool (default_alpha a) (default_alpha b)
+  && Bool.eqb (guess_default_is_none a) (guess_default_is_none b)
+  && Bool.eqb (tikhonov_default_is_none a) (tikhonov_default_is_none b)
+  && Bool.eqb (seed_is_exp_minus_one a) (seed_is_exp_minus_one b).
+
+Definition arg_or {A : Type} (d : A) (o : option A) : A := match o with Some v => v | None => d end.
+Definition dm := model_defaults.
